@@ -61,13 +61,36 @@ def _exception_clause(e):
     return "exception:%s@%s" % (type(e).__name__, where)
 
 
+class CaseTimeout(BaseException):
+    """a single case ran into the per-case watchdog: inconclusive, never a violation"""
+
+
+CASE_TIMEOUT_S = float(os.environ.get("PBT_CASE_TIMEOUT_S", "600"))
+TIMEOUTS = {"n": 0}
+
+
+def _alarm(signum, frame):
+    raise CaseTimeout()
+
+
 def run_case(sc, case, known_keys=(), suppressed=()):
     """Execute one case; returns (ctx, violation-or-None, rejected)."""
+    import signal
     from pbt.core import Ctx, Violation, Reject, GlobalStreams
     ctx = Ctx(known_keys, suppressed)
+    use_alarm = hasattr(signal, "setitimer")
+    if use_alarm:
+        try:
+            old = signal.signal(signal.SIGALRM, _alarm)
+            signal.setitimer(signal.ITIMER_REAL, CASE_TIMEOUT_S)
+        except ValueError:          # not in the main thread
+            use_alarm = False
     try:
         with GlobalStreams():
             sc.fn(case, ctx)
+    except CaseTimeout:
+        TIMEOUTS["n"] += 1
+        return ctx, None, True      # counted as out-of-budget (rejected), reported as inconclusive
     except Violation as v:
         return ctx, v, False
     except Reject:
@@ -81,6 +104,10 @@ def run_case(sc, case, known_keys=(), suppressed=()):
             ctx.suppressed_hits[clause] += 1
             return ctx, None, False
         return ctx, Violation(clause, msg), False
+    finally:
+        if use_alarm:
+            signal.setitimer(signal.ITIMER_REAL, 0)
+            signal.signal(signal.SIGALRM, old)
     return ctx, None, False
 
 
@@ -197,6 +224,9 @@ def run_task(task):
 
         out["evaluations"] = state["evals"]
         out["rejected"] = state["rej"]
+        if TIMEOUTS["n"]:
+            out["inconclusive"] = True
+            out["case_timeouts"] = TIMEOUTS["n"]
         out["nontrivial_hashes"] = sorted(nontriv)
         out["labels"] = dict(labels)
         out["samples"] = samples
